@@ -664,8 +664,17 @@ def run(ctx):
     ctx.rule = ("generated models (free/ball/slide/hinge joints with linear and polynomial stiffness / damping, fixed and spatial tendons with "
                 "springlength deadbands, gravcomp, actgravcomp joints; variants plain / nogravity / uniform-gravcomp) at random states; a case is one "
                 "(model, dof, quantity) bit comparison; oracle per model: laws, passive sum, dissipation, energy finite differences, gravcomp, rest")
+    import time
+    T, t0 = {}, [time.time()]
+
+    def lap(nm):
+        T[nm] = round(time.time() - t0[0], 1)
+        t0[0] = time.time()
+        ctx.extra["stage_seconds"] = T
     manifest = kernelval.regen(ctx)
+    lap("regen")
     ctx.lean_props(THEOREMS)
+    lap("lean_props")
     kernelval.validate(ctx, manifest, KERNELS, 150 if quick else 2000, label="c2lean kernels used by the passive-force model")
     npoly = None
     try:
@@ -675,6 +684,7 @@ def run(ctx):
     except Exception:
         pass
     ctx.oblige("mjNPOLY == 2 (the specialisation the kernels are translated with)", "translator", npoly == 2, "mjNPOLY = %r" % npoly)
+    lap("kernel_validation")
     drv = ctx.driver("drv_c29")
     exe = ctx.harness("harness/c/engine_repl.c", "engine_repl", deps=["harness/mjbuild.h"])
     if drv and exe:
@@ -686,6 +696,7 @@ def run(ctx):
         ctx.disagreements += [dict(m, stream="passive") for m in mism[:20]]
         stats["negative_damping_probe"] = probe_negative_damping(exe)
         ctx.extra["passive_oracle"] = stats
+        lap("engine_differential_and_oracle")
         ctx.extra["max_float_deviation"] = {"spring_rel": stats["max_dev_spring"], "damper_rel": stats["max_dev_damper"],
                                             "fd_rel": stats["max_fd_dev"], "gravcomp_rel": stats["max_gravcomp_dev"],
                                             "tolerances": {"law": RTOL, "fd": FD_TOL, "gravcomp": 1e-10}}
